@@ -23,7 +23,7 @@ type vpTr struct {
 	pk      chan *Packet
 	st      chan net.Conn
 	onSend  func(to string, mt messageType, body []byte)
-	dial    func(a Address) (net.Conn, error)
+	dial    func(a Address, d time.Duration) (net.Conn, error)
 	sendErr func(to string, mt messageType) error
 }
 
@@ -67,7 +67,7 @@ func (t *vpTr) DialTimeout(a string, d time.Duration) (net.Conn, error) {
 }
 func (t *vpTr) DialAddressTimeout(a Address, d time.Duration) (net.Conn, error) {
 	if t.dial != nil {
-		return t.dial(a)
+		return t.dial(a, d)
 	}
 	return nil, fmt.Errorf("refused")
 }
@@ -148,7 +148,7 @@ func vpProbeCase(r *vfRng, st *vfStats) vfCase {
 			script[a] = rel{nack: true, at: time.Duration(1+r.n(int(P/time.Millisecond)))*time.Millisecond + time.Microsecond}
 		}
 	}
-	tcpMode := r.n(3) // 0 refuse, 1 matching ack, 2 ack with another sequence number
+	tcpMode := r.n(4) // 0 refuse, 1 matching ack, 2 ack with another sequence number, 3 the host is gone: the dial waits out whatever timeout it was given
 	if nackStorm {
 		tcpMode = 0
 	}
@@ -229,11 +229,15 @@ func vpProbeCase(r *vfRng, st *vfStats) vfCase {
 	}
 	var tcpStart time.Duration
 	tcpUsed := false
-	tr.dial = func(a Address) (net.Conn, error) {
+	tr.dial = func(a Address, d time.Duration) (net.Conn, error) {
 		tcpUsed = true
 		tcpStart = time.Since(t0)
 		if tcpMode == 0 {
 			return nil, fmt.Errorf("refused")
+		}
+		if tcpMode == 3 {
+			time.Sleep(d)
+			return nil, fmt.Errorf("i/o timeout")
 		}
 		c1, c2 := net.Pipe()
 		go func() {
@@ -261,6 +265,8 @@ func vpProbeCase(r *vfRng, st *vfStats) vfCase {
 	done := make(chan struct{})
 	go func() { m.probeNode(&tn); close(done) }()
 	<-done
+	// how long the probe kept the (single, sequential) probe loop busy
+	probeDur := time.Since(t0)
 	time.Sleep(3 * I)
 	synctest.Wait()
 	m.nodeLock.RLock()
@@ -285,7 +291,7 @@ func vpProbeCase(r *vfRng, st *vfStats) vfCase {
 	if sendMode == 2 {
 		ab = 1
 	}
-	c.Obs = [][]int64{{vwBool(suspected), int64(m.GetHealthScore()), int64(nh), ab}}
+	c.Obs = [][]int64{{vwBool(suspected), int64(m.GetHealthScore()), int64(nh), ab, vpUs(probeDur)}}
 	_ = tcpUsed
 	m.Shutdown()
 	st.Ops++
